@@ -1017,15 +1017,23 @@ def check_ports(ctx, exe, d, n_big, n_custom, n_write):
         exprs.append("(c12-port-run '%s \"%s\" '(%s) '(%s))" % (kind, path, " ".join(map(str, sched)), " ".join(port_op_scm(o) for o in ops)))
         mlines.append("port %s %x %s %s %s" % ("f" if kind in ("fd", "custom") else "s", PORT_BUF, hx(utf8(cs)), hx(sched),
                                                ",".join(port_op_model(o) for o in ops)))
-    mo = ctx.run_model(exe, mlines)
+    # the extracted model walks unary offsets: ~1-3 s per 8 KB stream, so only a subset of the big streams goes through it
+    # (all of the small custom-port ones do); the SPEC judges every case
+    n_model_big = 10 if not ctx.thorough else 150
+    with_model = [n for n, c in enumerate(cases) if c[0] == "custom" or len(c[1]) < 200][:]
+    with_model = sorted(set(with_model) | set([n for n, c in enumerate(cases) if c[0] != "custom"][:n_model_big]))
+    mo_sub = ctx.run_model(exe, [mlines[n] for n in with_model])
+    mo = [None] * len(cases)
+    for n, m in zip(with_model, mo_sub):
+        mo[n] = m
     res = scm.run_cases(d, exprs, prelude_extra=prelude, imports=IMPORTS, chunk=40, timeout=60)
-    reported, nb = 0, 0
+    reported, nb = {}, 0
     for n, (kind, cs, sched, hot, ops, exp) in enumerate(cases):
         got = parse_fields(res[n]) if res[n] and not res[n].startswith(("TIMEOUT", "CRASH", "ERR")) else None
         nontriv = any(c >= 0x80 for c in cs)
         ctx.count(1, key=("port", kind, tuple(cs), tuple(sched), tuple(ops)), nontrivial=nontriv)
         ctx.cov["traces_validated_against_impl"] += 1
-        mf = mo[n].split(" | ")
+        mf = mo[n].split(" | ") if mo[n] is not None else None
         bad = None
         if got is None:
             bad = 0
@@ -1035,15 +1043,15 @@ def check_ports(ctx, exe, d, n_big, n_custom, n_write):
                     bad = k
                     break
         # the extracted model must agree with the SPEC on every field (three-way)
-        for k, e in enumerate(exp):
+        for k, e in enumerate(exp if mf is not None else []):
             if e is not None and (k >= len(mf) or mf[k] != e):
                 nb += 1
                 if nb <= 5:
                     ctx.broken("correspondence:port-model-vs-spec", "%s op %d (%s): model %r, SPEC %r" % (mlines[n][:200], k, ops[k], mf[k] if k < len(mf) else None, e))
                 break
         if bad is not None:
-            reported += 1
-            if reported > 12:
+            reported[kind] = reported.get(kind, 0) + 1
+            if reported[kind] > 6:
                 continue
             cut = ops[:bad + 1]
             txt = "(c12-port-run/bytes '%s \"%s\" '(%s) '(%s) '(%s))" % (kind, os.path.join(B.SCRATCH, "c12-port-replay.bin"), " ".join(map(str, utf8(cs))),
@@ -1055,10 +1063,10 @@ def check_ports(ctx, exe, d, n_big, n_custom, n_write):
                               replay="./check C12 --replay <this file>")
             else:
                 ctx.violation("port:%s:%s:%s" % (kind, name, port_where(cs, hot, ops, bad)), input=txt, step=bad, expected=exp[bad],
-                              observed=(got[bad] if bad < len(got) else "missing"), model=(mf[bad] if bad < len(mf) else None),
+                              observed=(got[bad] if bad < len(got) else "missing"), model=(mf[bad] if mf and bad < len(mf) else None),
                               replay="./check C12 --replay <this file>   # or: chibi-scheme with vlib/scm.py PRELUDE + harness/c12_hist.scm, then " + txt[:200] + " ...")
     if cases:
-        ctx.sample(dict(kind="port", request=exprs[0][:300], impl=str(res[0])[:300], model=mo[0][:300]))
+        ctx.sample(dict(kind="port", request=exprs[0][:300], impl=str(res[0])[:300], model=str(mo[0])[:300]))
     # write-char: the bytes that reach get-output-string / the file are the standard encoding; multi-byte characters cut by
     # the 4096-byte output buffer in every way
     wcases = []
@@ -1070,14 +1078,15 @@ def check_ports(ctx, exe, d, n_big, n_custom, n_write):
         cs = pre + [ctx.rng.choice(BY_WIDTH[w])] + [rand_cp(ctx.rng) for _ in range(ctx.rng.choice([0, 1, 5]))]
         wcases.append((ctx.rng.choice(["string", "string", "file", "fd"]), cs))
     wexprs = ["(c12-write-run '%s \"%s\" '(%s))" % (kind, os.path.join(pdir, "out-%d.bin" % n), " ".join(map(str, cs))) for n, (kind, cs) in enumerate(wcases)]
-    wmo = ctx.run_model(exe, ["wport %x %s" % (PORT_BUF, hx(cs)) for kind, cs in wcases])
+    n_wm = 6 if not ctx.thorough else 60
+    wmo = ctx.run_model(exe, ["wport %x %s" % (PORT_BUF, hx(cs)) for kind, cs in wcases[:n_wm]]) + [None] * max(0, len(wcases) - n_wm)
     wres = scm.run_cases(d, wexprs, prelude_extra=prelude, imports=IMPORTS, chunk=20, timeout=60)
     for (kind, cs), e, m, r in zip(wcases, wexprs, wmo, wres):
         exp = hx(utf8(cs))
         ctx.count(1, key=("wport", kind, tuple(cs)), nontrivial=True)
         ctx.cov["traces_validated_against_impl"] += 1
         got = (r or "").strip('"')
-        if m.split(" ")[:2] != ["OK", exp]:
+        if m is not None and m.split(" ")[:2] != ["OK", exp]:
             ctx.broken("correspondence:wport-model-vs-spec", "write-char model differs from the standard encoding on %s" % e[:200])
         if got != exp:
             gl, el = unhx(got) if got and not got.startswith(("ERR", "CRASH", "TIMEOUT")) else [], unhx(exp)
